@@ -774,6 +774,75 @@ func pwParseCall(s string) (*pwCall, error) {
 
 func single(parent string, r *bReq) *pwCall { return &pwCall{parent: parent, runs: []pwRun{{0, r}}} }
 
+// pwSamePointerRetry: the most ordinary retrying middleware there is — it calls next again with the VERY
+// message it was given (same pointer, possibly the same derived context) — for messages of 1..4 items and
+// 2..4 invocations. The pw scenarios hand every run a message of its own (the handlers find their script
+// through the payload pointer), so this shape is checked here, directly as the property states it: every
+// execution of the message starts with an empty placeholder, and an item reads what the previous item of
+// the SAME execution stored.
+func pwSamePointerRetry(ctx *Ctx) {
+	for items := 1; items <= 4; items++ {
+		for runs := 2; runs <= 4; runs++ {
+			for _, derive := range []bool{false, true} {
+				line := fmt.Sprintf("# place.sameptr items=%d runs=%d derived-context=%v", items, runs, derive)
+				ctx.current = line
+				var obs [][]string
+				exec := kmipserver.NewBatchExecutor()
+				exec.Use(func(next kmipserver.Next, c context.Context, msg *kmip.RequestMessage) (resp *kmip.ResponseMessage, err error) {
+					for k := 0; k < runs; k++ {
+						obs = append(obs, nil)
+						cc := c
+						if derive {
+							cc = context.WithValue(c, pwWrapKey{k}, k)
+						}
+						resp, err = next(cc, msg)
+					}
+					return resp, err
+				})
+				n := 0
+				exec.Route(kmip.OperationActivate, pwFunc(func(c context.Context, pl kmip.OperationPayload) (kmip.OperationPayload, error) {
+					obs[len(obs)-1] = append(obs[len(obs)-1], kmipserver.IdPlaceholder(c))
+					n++
+					kmipserver.SetIdPlaceholder(c, fmt.Sprintf("v%d", n))
+					return &payloads.ActivateResponsePayload{}, nil
+				}))
+				msg := pwProbeMsg(kmip.OperationActivate)
+				for len(msg.BatchItem) < items {
+					msg.BatchItem = append(msg.BatchItem, msg.BatchItem[0])
+				}
+				msg.Header.BatchCount = int32(items)
+				_, p := guard("HandleRequest", func() int { exec.HandleRequest(context.Background(), msg); return 0 })
+				ctx.Res.Count("placemw.same-pointer-retry")
+				if p != "" {
+					ctx.Res.Violate(report.Violation{Property: "C15", Oracle: "solo-equivalence", Key: "place:panic", Detail: "same-pointer retry: HandleRequest panicked: " + p, Line: line})
+					continue
+				}
+				v := 0
+				for j, o := range obs {
+					for i, got := range o {
+						want := ""
+						if i > 0 {
+							want = fmt.Sprintf("v%d", v)
+						}
+						v++
+						if got != want {
+							key := "place:wrong-value"
+							if i == 0 {
+								key = "place:run-not-empty-at-start"
+							}
+							ctx.Res.Violate(report.Violation{Property: "C15", Oracle: "solo-equivalence", Key: key,
+								Detail: fmt.Sprintf("a message middleware invokes next %d times with the message it was given (%d item(s)): item %d of execution %d reads the placeholder %q, expected %q", runs, items, i+1, j+1, got, want), Line: line})
+						}
+					}
+					if len(o) != items {
+						ctx.Res.Count("placemw.same-pointer-retry.items-not-all-run")
+					}
+				}
+			}
+		}
+	}
+}
+
 func runPlaceMw(ctx *Ctx) {
 	quietSlog()
 	impl, notes := pwProbe()
@@ -785,6 +854,7 @@ func runPlaceMw(ctx *Ctx) {
 		ctx.Res.Fail("placemw: cannot determine the implementation parameters: " + strings.Join(notes, "; "))
 		return
 	}
+	pwSamePointerRetry(ctx) // also when replaying: its lines (# place.sameptr) carry no further input
 	if replayRequests(ctx, "place.world", func(arg string) {
 		f := strings.SplitN(arg, " ", 3)
 		if len(f) != 3 {
